@@ -315,5 +315,15 @@ def r5(chk, prog, tables):
         else:
             chk.proven(rid, "json_tokener_reset", sig, "json_tokener.c",
                        "written by reset" if fld in reset_writes else "always written by the parse before it is read")
+    # the other half of "a reset parser behaves exactly like a new one": reset keeps what the constructor and the setters
+    # established - the flags, the depth limit and the two buffers are configuration, not parse state
+    for fld in sorted(config_fields - {"str"}):
+        sig = "configuration field %s" % fld
+        if fld in reset_writes:
+            chk.refuted(rid, "json_tokener_reset", sig, "json_tokener.c",
+                        "json_tokener_reset writes tok->%s: what json_tokener_set_flags / json_tokener_new_ex configured is lost by a "
+                        "reset (e.g. a strict parser parses leniently after the reset that must follow an error)" % fld)
+        else:
+            chk.proven(rid, "json_tokener_reset", sig, "json_tokener.c", "not written by reset")
     chk.floor(rid, len(tracked), 6, "parser fields")
     chk.tables["reset_writes"] = sorted(reset_writes)
